@@ -2,7 +2,7 @@
 import re
 
 from mirlib import (bool_edges, cond_of_switch, const_bytes, const_int, fields_of, find_calls, loc, op_place,
-                    switches, trace, trace_place)
+                    place_str, switches, trace, trace_place)
 from props.rt import desc, ret_desc, ret_root, short
 
 GEN = 'generate'
@@ -795,3 +795,270 @@ def rule_literal_escape(rep, crate):
     rep.inst(rid, 'Literal::escape:templates', detail=[repr(x) for x in tpls])
     if not hexs or not any(x.startswith(b'\x02\\x') for x in tpls):
         rep.viol(rid, 'escape:hex', 'non-ASCII bytes are not written as \\xNN', loc(fn))
+
+
+# --------------------------------------------------------------------------------------------
+# C12 / C04: information flow of the utf8 flag, UTF-8 acceptance gates
+# --------------------------------------------------------------------------------------------
+
+from mirlib import control_slice, edge_regions
+
+GATE_REGION_OK = re.compile(r'(parser::Parser::err$|error::Errors::err$|^std::fmt::|^core::fmt::|^std::hint::must_use$|^alloc::fmt::format|IntoIterator>::into_iter$|Iterator>::next$|^pattern::Pattern::source$'
+                            r'|^quote::|^proc_macro2::|ToTokens|^<.* as std::ops::Deref(Mut)?>::deref(_mut)?$|^std::mem::drop|Vec::<T, A>::is_empty$|Spanned>::span$|::span$|ToString>::to_string$|^syn::Ident'
+                            r'|<.* as std::convert::(Into|From)<.*>>::(into|from)$|^std::convert::Into::into$|^std::borrow::)')
+
+
+def derived_locals(fn, start):
+    """locals that hold (copies / negations / references of) the value of `start`"""
+    der = {start}
+    changed = True
+    while changed:
+        changed = False
+        for bi, si, st in fn.stmts():
+            rhs = st['rhs']
+            if st['lhs']['proj']:
+                continue
+            srcs = []
+            if rhs['rv'] in ('use', 'un', 'cast'):
+                p = op_place(rhs['a'])
+                if p and not fields_of(p):
+                    srcs.append(p['local'])
+            elif rhs['rv'] == 'ref':
+                if not fields_of(rhs['place']):
+                    srcs.append(rhs['place']['local'])
+            if any(s in der for s in srcs) and st['lhs']['local'] not in der:
+                der.add(st['lhs']['local'])
+                changed = True
+    return der
+
+
+def flag_uses(fn, der):
+    """every use of a derived local that is not itself a derivation"""
+    uses = []
+    for bi, si, st in fn.stmts():
+        if bi not in fn.live_blocks():
+            continue
+        rhs = st['rhs']
+        if rhs['rv'] == 'agg':
+            for n, o in zip(rhs['fields'] or [str(i) for i in range(len(rhs['ops']))], rhs['ops']):
+                p = op_place(o)
+                if p and p['local'] in der:
+                    uses.append(('agg', rhs['kind'].get('adt', rhs['kind']), n, bi, st['line']))
+        elif rhs['rv'] == 'bin':
+            for k in ('a', 'b'):
+                p = op_place(rhs[k])
+                if p and p['local'] in der:
+                    uses.append(('bin', rhs['bop'], None, bi, st['line']))
+        elif st['lhs']['proj'] and rhs['rv'] in ('use',):
+            p = op_place(rhs['a'])
+            if p and p['local'] in der:
+                uses.append(('store', place_fields(st['lhs']), None, bi, st['line']))
+    for bi, t in fn.calls():
+        for i, a in enumerate(t['args']):
+            p = op_place(a)
+            if p and p['local'] in der:
+                uses.append(('arg', fn.callee_name(t), i, bi, t['line']))
+    for sb in switches(fn):
+        p = op_place(fn.blocks[sb]['term']['discr'])
+        if p and p['local'] in der:
+            uses.append(('switch', sb, None, sb, fn.blocks[sb]['term']['line']))
+    return uses
+
+
+def place_fields(pl):
+    return '.'.join(fields_of(pl))
+
+
+SENSITIVE_SINKS = r'^(pattern::Pattern::compile|pattern::Pattern::compile_lit|leaf::Leaf::new|leaf::Leaf::priority|leaf::Leaf::callback|leaf::Leaf::variant_kind|greedy_dotall_check|parser::subpattern::Subpatterns::subst_subpatterns)$'
+
+
+def rule_utf8_flow(rep, crate):
+    rid = rep.rule('M-C12a', 'information flow of the utf8 flag: it reaches only graph::Config.utf8_mode (-> thompson::Config::utf8), Subpatterns::new (-> its UTF-8 gate), the UTF-8 gate of generate and the choice of the Source type; no pattern, priority, callback or generator input depends on it (data or control)', floor=6)
+    fn = crate.fns.get(GEN)
+    if not rep.anchor(rid, 'fn logos_codegen::generate', fn is not None):
+        return
+    src = [l for l, n in fn.names.items() if n == 'utf8_mode']
+    if not rep.anchor(rid, 'local utf8_mode in generate', len(src) == 1):
+        return
+    der = derived_locals(fn, src[0])
+    uses = flag_uses(fn, der)
+    regions = edge_regions(fn)
+    for kind, a, b, bi, line in uses:
+        if kind == 'agg':
+            rep.inst(rid, 'generate:use:agg:%s.%s' % (a, b))
+            if not (a == 'graph::Config' and b == 'utf8_mode'):
+                rep.viol(rid, 'utf8-flow:agg:%s.%s' % (a, b), 'the utf8 flag is stored into %s.%s' % (a, b), loc(fn, line))
+        elif kind == 'arg':
+            rep.inst(rid, 'generate:use:arg:%s#%s' % (short(a), b))
+            if re.search(r'parser::subpattern::Subpatterns::new$', a) and b == 1:
+                continue
+            if re.search(r'fmt::rt::Argument::<.*>::new_', a):
+                continue
+            rep.viol(rid, 'utf8-flow:arg:%s' % short(a), 'the utf8 flag is passed to %s (argument %s)' % (a, b), loc(fn, line))
+        elif kind == 'switch':
+            calls = set()
+            for e, reg in regions.items():
+                if e[0] != a:
+                    continue
+                for rb in reg:
+                    t = fn.blocks[rb]['term']
+                    if t['t'] == 'call':
+                        calls.add(fn.callee_name(t))
+            bad = sorted(c for c in calls if not GATE_REGION_OK.search(c))
+            rep.inst(rid, 'generate:use:branch@line', detail=dict(line=line, controlled_calls=len(calls)))
+            if bad:
+                rep.viol(rid, 'utf8-flow:branch:%s' % short(bad[0]), 'a branch on the utf8 flag controls calls outside the UTF-8 gate / source type rendering: %s' % bad[:5], loc(fn, line))
+        else:
+            rep.inst(rid, 'generate:use:%s' % kind)
+            rep.viol(rid, 'utf8-flow:%s:%s' % (kind, a), 'the utf8 flag is used in %s %s' % (kind, a), loc(fn, line))
+    # sensitive sinks: neither data nor control dependent on the flag
+    n = 0
+    for bi, t in fn.calls():
+        name = fn.callee_name(t)
+        if not re.search(SENSITIVE_SINKS, name):
+            continue
+        for i, a in enumerate(t['args']):
+            if name.endswith('subst_subpatterns') and i in (0, 3):
+                continue   # the table (whose construction is audited separately) and the error sink
+            n += 1
+            locs, _c, _f = control_slice(fn, a, stop_at_calls=('parser::subpattern::Subpatterns::new', 'graph::Graph::new', 'error::Errors::render'))
+            if locs & der:
+                rep.viol(rid, 'utf8-flow:sink:%s#%d' % (short(name), i), 'argument %d of %s depends (by data or control) on the utf8 flag: switching modes would change more than the source type and the NFA mode' % (i, name), loc(fn, t['line']))
+    rep.inst(rid, 'generate:sensitive-sink-arguments', detail=n)
+    # inside Graph::new: config.utf8_mode only feeds thompson::Config::utf8
+    g = crate.fns.get('graph::Graph::new')
+    if rep.anchor(rid, 'fn graph::Graph::new', g is not None):
+        reads = []
+        for bi, si, st in g.stmts():
+            rhs = st['rhs']
+            for pl in [op_place(rhs.get('a') or {}), rhs.get('place')]:
+                if pl and 'utf8_mode' in fields_of(pl) and bi in g.live_blocks():
+                    reads.append((bi, st))
+        for sb in switches(g):
+            pl = op_place(g.blocks[sb]['term']['discr'])
+            if pl and 'utf8_mode' in fields_of(pl):
+                rep.viol(rid, 'utf8-flow:graph-branch', 'Graph::new branches on config.utf8_mode', loc(g, g.blocks[sb]['term']['line']))
+        utf8_calls = find_calls(g, r'thompson::Config::utf8$')
+        rep.inst(rid, 'Graph::new:utf8_mode', detail=dict(reads=len(reads), nfa_utf8_calls=len(utf8_calls)))
+        if len(utf8_calls) != 1 or desc(g, utf8_calls[0][1]['args'][1]) != 'param2.utf8_mode':
+            rep.viol(rid, 'nfa-utf8-arg', 'thompson::Config::utf8 is not given exactly config.utf8_mode', loc(g))
+        for bi, st in reads:
+            dl = derived_locals(g, st['lhs']['local'])
+            for kind, a, b, ubi, line in flag_uses(g, dl):
+                if kind == 'arg' and re.search(r'thompson::Config::utf8$', a):
+                    continue
+                rep.viol(rid, 'utf8-flow:graph:%s' % kind, 'config.utf8_mode is used by %s %s in Graph::new' % (kind, a), loc(g, line))
+    # inside Subpatterns::new: the flag only controls the gate
+    s = crate.fns.get('parser::subpattern::Subpatterns::new')
+    if rep.anchor(rid, 'fn Subpatterns::new', s is not None):
+        dl = derived_locals(s, 2)
+        us = flag_uses(s, dl)
+        rep.inst(rid, 'Subpatterns::new:utf8_mode', detail=[(k, str(a)[:60]) for k, a, b, bi, line in us])
+        for kind, a, b, bi, line in us:
+            if kind == 'switch':
+                calls = set()
+                for e, reg in edge_regions(s).items():
+                    if e[0] == a:
+                        for rb in reg:
+                            t = s.blocks[rb]['term']
+                            if t['t'] == 'call':
+                                calls.add(s.callee_name(t))
+                bad = sorted(c for c in calls if not GATE_REGION_OK.search(c) and not re.search(r'Properties::is_utf8$|Hir::properties$|Pattern::hir$|HashMap::<K, V, S, A>::insert$|Ident::to_string|Clone>::clone$|Ident::span$|Literal::span$', c))
+                if bad:
+                    rep.viol(rid, 'utf8-flow:subpatterns-branch', 'in Subpatterns::new a branch on utf8_mode controls %s' % bad[:5], loc(s, line))
+            else:
+                rep.viol(rid, 'utf8-flow:subpatterns:%s' % kind, 'in Subpatterns::new utf8_mode is used by %s %s' % (kind, short(str(a))), loc(s, line))
+
+
+def rule_utf8_gate(rep, crate):
+    rid = rep.rule('M-C04a', 'UTF-8 acceptance gates: in generate an error is recorded for every leaf whose pattern is not Properties::is_utf8() whenever utf8 mode is on; in Subpatterns::new `utf8_mode && !is_utf8` records an error and skips the insertion; both precede the compile_error gate', floor=2)
+    fn = crate.fns.get(GEN)
+    if rep.anchor(rid, 'fn logos_codegen::generate', fn is not None):
+        src = [l for l, n in fn.names.items() if n == 'utf8_mode']
+        filt = None
+        for bi, t in find_calls(fn, r'Iterator::filter$|Iterator>::filter$'):
+            a = trace(fn, t['args'][1])
+            if a[0] == 'agg' and 'closure' in a[2]['rhs']['kind']:
+                clo = crate.fns.get(a[2]['rhs']['kind']['closure'])
+                if clo and any(re.search(r'Properties::is_utf8$', clo.callee_name(x)) for _b, x in clo.calls()):
+                    filt = (bi, t, clo)
+        ok = filt is not None and len(src) == 1
+        detail = {}
+        if ok:
+            bi, t, clo = filt
+            # the closure keeps the leaves that are NOT utf8
+            r = ret_desc(clo)
+            detail['filter'] = r
+            if not re.fullmatch(r'Not\(call:regex_syntax::hir::Properties::is_utf8\(call:regex_syntax::hir::Hir::properties\(call:pattern::Pattern::hir\(.*\.pattern\)\)\)\)', r):
+                rep.viol(rid, 'gate:filter', 'the non-UTF-8 filter is %s, expected !leaf.pattern.hir().properties().is_utf8()' % r, loc(clo))
+            # it iterates over all leaves (pats)
+            recv = desc(fn, t['args'][0])
+            detail['over'] = recv[:80]
+            if not re.search(r'slice::<impl \[T\]>::iter\(call:<std::vec::Vec<T, A> as std::ops::Deref>::deref\(', recv):
+                rep.viol(rid, 'gate:filter-domain', 'the non-UTF-8 filter does not run over the whole pattern vector (%s)' % recv[:120], loc(fn, t['line']))
+            # errors: Parser::err calls control dependent on utf8_mode and on the filtered collection
+            der = derived_locals(fn, src[0])
+            errs = []
+            for eb, et in find_calls(fn, r'parser::Parser::err$'):
+                ctl = controlling_switches_discr(fn, eb)
+                dep_flag = any((op_place(d) or {}).get('local') in der for d in ctl)
+                dep_coll = False
+                for d in ctl:
+                    sl = fn.slice(d)
+                    if any(re.search(r'is_empty$', c) for c in sl.calls) and t['dest']['local'] in fn.slice(d).locals:
+                        dep_coll = True
+                if dep_flag and dep_coll:
+                    errs.append(eb)
+            detail['errors'] = len(errs)
+            if not errs:
+                rep.viol(rid, 'gate:no-error', 'no Parser::err is controlled by `utf8_mode && !non_utf8_pats.is_empty()`', loc(fn))
+            else:
+                # per leaf: the err sits in a loop over the filtered collection
+                renders = find_calls(fn, r'error::Errors::render$')
+                if not any(fn.can_reach(e, rb) for e in errs for rb, _t in renders):
+                    rep.viol(rid, 'gate:after-render', 'the UTF-8 gate comes after the compile_error gate', loc(fn))
+        else:
+            rep.viol(rid, 'gate:missing', 'no filter over Properties::is_utf8 found in generate', loc(fn))
+        rep.inst(rid, 'generate:utf8-gate', detail=detail)
+    s = crate.fns.get('parser::subpattern::Subpatterns::new')
+    if rep.anchor(rid, 'fn Subpatterns::new', s is not None):
+        ins = find_calls(s, r'HashMap::<K, V, S, A>::insert$')
+        ok = False
+        detail = {}
+        for sb in switches(s):
+            c = cond_of_switch(s, sb)
+            if not c or c['root'][0] != 'param' or c['root'][1] != 2:
+                continue
+            # on the utf8_mode edge: a switch on !is_utf8 whose bad edge records an error and cannot reach the insert
+            for s2 in switches(s):
+                if not s.edge_dominates((c['bb'], c['t']), s2):
+                    continue
+                c2 = cond_of_switch(s, s2)
+                if not c2:
+                    continue
+                sl = s.slice(s.blocks[s2]['term']['discr'])
+                if not any(re.search(r'Properties::is_utf8$', x) for x in sl.calls):
+                    continue
+                # polarity: root is call is_utf8 (after Not stripping): bad edge = false edge of is_utf8
+                bad = (s2, c2['f']) if c2['root'][0] == 'call' else None
+                if bad is None:
+                    continue
+                errs = [b for b, _t in find_calls(s, r'error::Errors::err$') if s.edge_dominates(bad, b)]
+                reach_ins = any(ib in s.reachable(bad[1], without_blocks=tuple(loop_heads(s))) for ib, _t in ins)
+                detail = dict(errs=len(errs), insert_reachable_without_next_iteration=reach_ins)
+                if errs and not reach_ins:
+                    ok = True
+            # the insert is not reachable on the utf8_mode edge without passing the is_utf8 test
+        rep.inst(rid, 'Subpatterns::new:utf8-gate', detail=detail)
+        if not ok:
+            rep.viol(rid, 'gate:subpattern', 'Subpatterns::new does not reject (error + skip insertion) a subpattern that can match invalid UTF-8 in utf8 mode', loc(s))
+
+
+def controlling_switches_discr(fn, b):
+    from mirlib import controlling_switches
+    return [fn.blocks[sb]['term']['discr'] for sb in controlling_switches(fn, b)]
+
+
+def loop_heads(fn):
+    """blocks that call Iterator::next (loop heads of `for` loops)"""
+    return [b for b, t in fn.calls() if re.search(r'Iterator>::next$', fn.callee_name(t))]
